@@ -7,7 +7,8 @@
 (*    IndInv /\ Next => IndInv'         (length 1, --init=IndInv)          *)
 (*    IndInv => Safety                  (Safety is a conjunct-wise         *)
 (*                                       consequence, checked at length 0) *)
-(* The actions are those of module BreedingLoop (INSTANCE, no copy).       *)
+(* The actions are those of module BreedingLoop (INSTANCE, no copy), incl.  *)
+(* the direct advance(k) / reset() calls after evolve() has returned.       *)
 (***************************************************************************)
 EXTENDS Integers, Sequences, FiniteSets
 
@@ -36,7 +37,9 @@ VARIABLES
     \* @type: Str -> {cs: Bool, ms: Bool, cd: Bool, sd: Bool};
     al,
     \* @type: Seq({call: Str, rep: Int, t: Int, oc: Str -> Str});
-    hist
+    hist,
+    \* @type: Int;
+    tb
 
 Deep    == INSTANCE BreedingLoop WITH ResetMode <- "deep"
 Shallow == INSTANCE BreedingLoop WITH ResetMode <- "shallow"
@@ -51,7 +54,7 @@ IndInit == /\ pc = "idle"
            /\ nrep \in Nat /\ nrep >= 1 /\ ngen \in Nat /\ loginit \in BOOLEAN
            /\ rep = 0 /\ gen = 0 /\ t = 0 /\ lrep = 0
            /\ al = [s \in Slots |-> [cs |-> FALSE, ms |-> FALSE, cd |-> FALSE, sd |-> FALSE]]
-           /\ hist = <<>>
+           /\ hist = <<>> /\ tb = 0
 
 \* the inductive invariant (constrains every variable)
 IndInv ==
@@ -59,15 +62,15 @@ IndInv ==
     /\ nrep \in Nat /\ nrep >= 1 /\ ngen \in Nat /\ loginit \in BOOLEAN
     /\ rep \in Nat /\ rep <= nrep /\ gen \in Nat /\ gen <= ngen /\ t \in Nat /\ lrep = rep
     /\ al \in [Slots -> Flag]
-    /\ hist = <<>>
+    /\ hist = <<>> /\ tb \in Nat
     \* aliasing: with a deep reset the working containers never share anything with the stored start
     /\ \A s \in Slots : ~al[s].cs /\ ~al[s].ms /\ ~al[s].sd
     /\ pc = "evalinit" => \A s \in Slots : ~al[s].cd
     \* counters
     /\ pc \in {"reset", "evalinit", "log_initialize", "tick0"} \cup InGen => rep >= 1
     /\ pc \in {"evalinit", "log_initialize", "tick0"} => t = 0 /\ gen = 0
-    /\ pc \in InGen => t = gen + 1 /\ gen < ngen
-    /\ pc \in {"idle", "finished"} => (rep = 0 /\ gen = 0 /\ t = 0) \/ (gen = ngen /\ t = ngen + 1)
+    /\ pc \in InGen => t = tb + gen /\ gen < ngen
+    /\ pc \in {"idle", "finished"} => (rep = 0 /\ gen = 0 /\ t = 0) \/ (gen = ngen /\ t = tb + ngen)
     /\ pc = "finished" => rep = nrep
 
 \* the properties of module BreedingLoop (its invariants, verbatim) follow from IndInv
@@ -77,7 +80,8 @@ Safety == /\ Deep!StartNeverModified
           /\ Deep!LogbookRep
           /\ Deep!DoneAll
 
-NextDeep == Deep!Next
+\* the bounded model lets a direct advance(k) run only while the time stays below its bound; here k is any positive number
+NextDeep == Deep!Next \/ (\E k \in Nat : k >= 1 /\ Deep!MoreAdvanceBody(k))
 NextShallow == Shallow!Next
 
 \* non-vacuity: the same invariant is NOT inductive for the shallow reset
